@@ -616,6 +616,15 @@ class Interp(object):
                 self.fails.append(bool(bad))
                 if bad:
                     raise interp.make_exn(e)
+
+            if interp.case.get("equal_dests"):
+                # value-equal destination objects (as FileDestinations on one file, list-subclass collectors, dataclass
+                # destinations are): distinct registrations all the same
+                def __eq__(self, other):
+                    return type(other).__name__ == "Rec"
+
+                def __hash__(self):
+                    return 7
         r = Rec()
         self.dests[did] = r
         return r
